@@ -21,8 +21,14 @@ type Probe struct {
 	Got  string `json:"got,omitempty"`
 }
 
+type Recipe struct {
+	Name string   `json:"name"`
+	Args []string `json:"args"`
+}
+
 type Case struct {
 	N      int               `json:"n"`
+	Recipe Recipe            `json:"recipe"`
 	Desc   map[string]string `json:"desc"`
 	Probes []Probe           `json:"probes"`
 	// bookkeeping for evidence
